@@ -35,6 +35,18 @@ def step_name(sdef, ddef, m, step):
     if name == 'Autodeslice':
         off = step.variants['Autodeslice'][0]
         name += ':' + ddef.variant_by_discr(m.eval(off.discr, model_completion=True).as_long())[1]
+    if name == 'Element':
+        names = [n for n, _ in sdef.variant_by_name('Element')[2]]
+        e = step.variants['Element'][names.index('is_endless')]
+        if m.eval(e.discr, model_completion=True).as_long() == 1:
+            name += ':true' if z3.is_true(m.eval(e.variants['Some'][0], model_completion=True)) else ':false'
+        else:
+            name += ':none'
+    if name == 'Member':
+        names = [n for n, _ in sdef.variant_by_name('Member')[2]]
+        o = step.variants['Member'][names.index('offset')]
+        if m.eval(o.discr, model_completion=True).as_long() == 1:
+            name += ':some'
     return name
 
 
@@ -119,7 +131,7 @@ def run(tier):
         'assigning through an immutable base is an error (E530) exactly when no pointer is passed through')
 
     # native validation of the encoding on every sequence of up to 2 steps and sampled longer ones
-    names = ['Element', 'Member', 'Autodeslice:ArrayByView', 'Autodeslice:ArrayByPointer', 'Autodeslice:Length', 'Autoderef', 'Autoview']
+    names = ['Element', 'Element:true', 'Element:false', 'Member', 'Member:some', 'Autodeslice:ArrayByView', 'Autodeslice:ArrayByPointer', 'Autodeslice:Length', 'Autoderef', 'Autoview']
     rng = random.Random(seed() * 17 + 1)
     seqs = [()] + [(a,) for a in names] + list(itertools.product(names, names))
     seqs += [tuple(rng.choice(names) for _ in range(rng.randint(3, K))) for _ in range(60 if tier == 'quick' else 400)]
@@ -134,8 +146,15 @@ def run(tier):
         for st, nm in zip(steps, sq):
             base = nm.split(':')[0]
             s2.add(st.discr == bv(sdef.variant_by_name(base)[1], 64))
-            if ':' in nm:
+            if base == 'Autodeslice':
                 s2.add(st.variants['Autodeslice'][0].discr == bv(ddef.variant_by_name(nm.split(':')[1])[1], 64))
+            if base == 'Element':
+                fn_ = [n for n, _ in sdef.variant_by_name('Element')[2]]
+                e = st.variants['Element'][fn_.index('is_endless')]
+                if ':' in nm:
+                    s2.add(e.discr == bv(1, 64), e.variants['Some'][0] == (nm.endswith('true')))
+                else:
+                    s2.add(e.discr == bv(0, 64))
         assert s2.check() == z3.sat
         enc = 'true' if z3.is_true(s2.model().eval(res, model_completion=True)) else 'false'
         s2.pop()
